@@ -422,9 +422,7 @@ func (e *Env) RunRequest(pkg *PkgDef, spec *ReqSpec, obs StreamObserver) *RunRes
 	if res.Outcome == OutDone {
 		// writes tier1 still has in flight when the request returned
 		e.Disk.mu.Lock()
-		for _, n := range e.Disk.issued {
-			res.LeakedIO += n
-		}
+		res.LeakedIO = e.Disk.issuedBy[node]
 		e.Disk.mu.Unlock()
 	}
 	cancel() // the real handler cancels the request context when it returns
